@@ -46,12 +46,17 @@ def bounds(tier):
     return b
 
 
-def faults_for(c, tier):
+def faults_for(c, tier, nops=None):
+    """nops: events per worker from an undisturbed probe run (puts, plus acquire/release of shared semaphores when the
+    code uses them); a SIGKILL fault point is 'before event k', k = 0..#events-1 (the last event is the sentinel put)."""
     single = []
     for w in range(rc.n_workers(c)):
-        for k in range(rc.worker_records(c, w) + 1):
-            for code in (-9, 1):
-                single.append([{"w": w, "k": k, "code": code}])
+        recs = rc.worker_records(c, w)
+        kill_points = range((nops[w] if nops and w in nops else recs + 1))
+        for k in kill_points:
+            single.append([{"w": w, "k": k, "code": -9}])
+        for k in range(recs + 1):
+            single.append([{"w": w, "k": k, "code": 1}])
     out = list(single)
     if tier == "thorough" and rc.n_workers(c) >= 2 and c["nrec"] <= 4:
         for a in single:
@@ -97,7 +102,13 @@ def run_shard(spec, tier, scratch):
     res = fw.ShardResult()
     c = spec["config"]
     budget = [CAP[tier]]
-    for fault in faults_for(c, tier):
+    from mc import vmp
+
+    probe = vmp.Exec(rc.cfg_for(scratch, c), [], None, want_state=False).run()
+    nops = {w.wid: len(w.ops) for w in probe.workers if w.started}
+    if probe.uses_sync:
+        res.count("configurations_with_shared_semaphores(model only)")
+    for fault in faults_for(c, tier, nops):
         r = c11.explore_config(
             res, c, scratch, tier, fault=fault, judge_fn=lambda x: judge(x, c["nrec"], fault), tag="C13",
             dev_bound=bounds(tier)["deviation_bound_unpruned"], budget=budget,
@@ -106,7 +117,7 @@ def run_shard(spec, tier, scratch):
         if r is not None:
             cfg, picks = r
             # bind the fault model to the OS: run a few of the explored fault schedules on real processes
-            if fault[0]["k"] in (0, rc.worker_records(c, fault[0]["w"])) and not c.get("pipe"):
+            if fault[0]["k"] in (0, rc.worker_records(c, fault[0]["w"])) and not c.get("pipe") and not probe.uses_sync:
                 c11.real_replays(res, c, cfg, picks, fault, tier, REAL_REPLAYS[tier])
     return res
 
@@ -126,7 +137,7 @@ def finalize(results, tier):
             "explorations_capped": st.get("explorations_capped", 0),
         }
     }
-    if st.get("traces_validated_against_impl", 0) == 0:
+    if st.get("traces_validated_against_impl", 0) == 0 and not st.get("configurations_with_shared_semaphores(model only)"):
         out["harness_error"] = "no fault schedule was validated on real processes"
     if st.get("explorations_capped", 0):
         out["coverage"]["exhaustive"] = False
@@ -148,6 +159,9 @@ def replay(case, scratch):
         res.fail(v[0], v[1] + f" [model of a pipe holding {c['pipe']} message(s)]", case)
     elif v is not None:
         err = rc.conform_real(cfg, case["schedule"], case.get("fault"), x1)
+        if err == "SKIPPED":
+            res.fail(v[0], v[1] + " [model only: the code shares semaphores/locks with its workers]", case)
+            return res.failures
         if err is not None:
             raise fw.HarnessError(f"counterexample does not reproduce on real processes: {err}")
         res.fail(v[0], v[1] + " [reproduced with real processes, the worker really killed]", case)
